@@ -244,6 +244,7 @@ fn witness(plan: &Plan) -> Value {
 /// like check_case but the signature uses the transition labels of the shrunk plan
 fn check_plan(run: &Run, s: Src, max_objs: u32, max_updates: u32, sample: bool) {
     let gen = move |s: &mut Src| { let p = gen_plan(s, max_objs, max_updates); let b = build(&p); for l in b.labels { s.label(Box::leak(l.into_boxed_str())); } p };
+    let params = json!({"max_objs": max_objs, "max_updates": max_updates});
     check_case(run, "C02", "history", s, &gen, &oracle, &witness, &|p, _| {
         let b = build(p);
         run.nontrivial(fnv(&b.bytes));
@@ -251,7 +252,15 @@ fn check_plan(run: &Run, s: Src, max_objs: u32, max_updates: u32, sample: bool) 
         for l in &b.labels { run.count(&format!("transition:{}", l)); }
         run.count(&format!("sections:{}", p.sections.len()));
         if sample { run.sample(json!({"plan": format!("{:?}", p), "transitions": b.labels})); }
-    });
+    }, params);
+}
+
+/// Re-run a stored witness (choice tape + generator parameters) against the current tree.
+pub fn replay(_prefix: &str, tape: &[u32], params: &Value) -> Option<Option<(String, String)>> {
+    let (mo, mu) = (params["max_objs"].as_u64()? as u32, params["max_updates"].as_u64()? as u32);
+    let mut s = Src::replay(tape);
+    let plan = gen_plan(&mut s, mo, mu);
+    Some(oracle(&plan))
 }
 
 fn exhaustive(run: &Run, n_sections: usize) {
